@@ -122,4 +122,4 @@ class SympySimulator(Backend):
 
     @staticmethod
     def backend_info():
-        return {"statevector_available": True, "statevector_order": "lsq_first", "noisy_simulation": False}
+        return {"statevector_available": True, "statevector_order": "msq_first", "noisy_simulation": False}
